@@ -1,7 +1,7 @@
 """C18: PrattParser honours declared precedence and associativity.
 
 All operator tables of three families (up to 2 infix with both associativities, up to 2 prefix and up to 2
-postfix operators; precedences with repetition from {1,2,3} or all distinct) x all well-formed token
+postfix operators; precedences with repetition from {0,1,2} or all distinct; rule names optionally shared between tables) x all well-formed token
 streams up to N tokens.  Two oracles:
  (1) an independent transcription of pest's PrattParser binding-power algorithm (nud/led/lbp);
  (2) brute force, independent of any parsing algorithm: all trees over the stream that satisfy the
@@ -20,6 +20,13 @@ BOUNDS = {"quick": 6, "thorough": 8}
 # ----------------------------------------------------------------------------- space
 
 PRE, POST, INF = "pP", "qQ", "ij"
+PRECS = (0, 1, 2)     # precedence 0 is a declared precedence like any other
+
+
+def _norm_keep(t, n):
+    if t.get("shared"):
+        n["shared"] = t["shared"]
+    return n
 
 
 def norm_table(t):
@@ -30,27 +37,28 @@ def norm_table(t):
         if isinstance(v, dict):
             return dict(v)
         return {tok: v}
-    return {"infix": {k: tuple(v) for k, v in t["infix"].items()}, "prefix": side(t["prefix"], "p"), "postfix": side(t["postfix"], "q")}
+    return _norm_keep(t, {"infix": {k: tuple(v) for k, v in t["infix"].items()}, "prefix": side(t["prefix"], "p"), "postfix": side(t["postfix"], "q")})
 
 
 def tables():
-    """Family A: precedences from {1,2,3} with repetition, 0-2 infix, 0-1 prefix, 0-1 postfix operators.
+    """Family A: precedences from PRECS with repetition, 0-2 infix, 0-1 prefix, 0-1 postfix operators.
     Family B: 0-2 operators of every kind, all precedences distinct (every bijection onto 1..k).
-    Family C: two prefix and/or two postfix operators with precedences from {1,2,3} (with repetition), 0-1 infix."""
+    Family C: two prefix and/or two postfix operators with precedences from PRECS (with repetition), 0-1 infix.
+    Family D: tables of A-C with a rule name shared between two tables."""
     out = []
     infix_cfgs = [()]
-    for p in (1, 2, 3):
+    for p in PRECS:
         for a in ("L", "R"):
             infix_cfgs.append((("i", p, a),))
     single = list(infix_cfgs)
-    for p1 in (1, 2, 3):
+    for p1 in PRECS:
         for a1 in ("L", "R"):
-            for p2 in (1, 2, 3):
+            for p2 in PRECS:
                 for a2 in ("L", "R"):
                     infix_cfgs.append((("i", p1, a1), ("j", p2, a2)))
     for inf in infix_cfgs:
-        for pre in (None, 1, 2, 3):
-            for post in (None, 1, 2, 3):
+        for pre in (None,) + PRECS:
+            for post in (None,) + PRECS:
                 out.append(norm_table({"infix": {n: (p, a) for n, p, a in inf}, "prefix": pre, "postfix": post}))
     seen = {repr(t) for t in out}
 
@@ -63,21 +71,27 @@ def tables():
         for npost in range(3):
             for ninf in range(3):
                 ops = list(PRE[:npre]) + list(POST[:npost]) + list(INF[:ninf])
-                for perm in itertools.permutations(range(1, len(ops) + 1)):
+                for perm in itertools.permutations(range(0, len(ops))):
                     prec = dict(zip(ops, perm))
                     for assoc in itertools.product("LR", repeat=ninf):
                         add({"infix": {o: (prec[o], assoc[k]) for k, o in enumerate(INF[:ninf])},
                              "prefix": {o: prec[o] for o in PRE[:npre]}, "postfix": {o: prec[o] for o in POST[:npost]}})
     # C
-    two = [dict(zip("ab", pq)) for pq in itertools.product((1, 2, 3), repeat=2)]
+    two = [dict(zip("ab", pq)) for pq in itertools.product(PRECS, repeat=2)]
     for inf in single:
-        for pre in [None] + [1, 2, 3] + two:
-            for post in [None] + [1, 2, 3] + two:
+        for pre in [None] + list(PRECS) + two:
+            for post in [None] + list(PRECS) + two:
                 if not isinstance(pre, dict) and not isinstance(post, dict):
                     continue
                 pr = {"p": pre["a"], "P": pre["b"]} if isinstance(pre, dict) else pre
                 po = {"q": post["a"], "Q": post["b"]} if isinstance(post, dict) else post
                 add(norm_table({"infix": {n: (p, a) for n, p, a in inf}, "prefix": pr, "postfix": po}))
+    # D: the same tables again with one rule name shared between two tables, where the table has both kinds
+    for t in list(out):
+        for mode, need in (("prefix=infix", ("p", "i")), ("prefix=postfix", ("p", "q")), ("both", ("p", "i", "P", "q"))):
+            have = set(t["prefix"]) | set(t["postfix"]) | set(t["infix"])
+            if all(x in have for x in need) and len(have) <= 4:
+                out.append(dict(t, shared=mode))
     return out
 
 
@@ -111,7 +125,8 @@ def streams(table, n):
 # ----------------------------------------------------------------------------- oracle 1: pest's algorithm
 
 def pest_pratt(table, toks):
-    """Transcription of pest::pratt_parser (nud / led / lbp) on precedences as declared."""
+    """Transcription of pest::pratt_parser (nud / led / lbp); binding power = declared precedence + 1 (pest's own powers start above 0,
+    the end of the stream has power 0)."""
     pos = [0]
 
     def lbp():
@@ -119,16 +134,16 @@ def pest_pratt(table, toks):
             return 0
         t = toks[pos[0]]
         if t in table["infix"]:
-            return table["infix"][t][0]
+            return table["infix"][t][0] + 1
         if t in table["postfix"]:
-            return table["postfix"][t]
+            return table["postfix"][t] + 1
         raise ValueError("expected operator")
 
     def nud():
         t = toks[pos[0]]
         pos[0] += 1
         if t in table["prefix"]:
-            rhs = expr(table["prefix"][t] - 1)
+            rhs = expr(table["prefix"][t] + 1 - 1)
             return (t, rhs)
         if t == "x":
             return "x"
@@ -139,7 +154,7 @@ def pest_pratt(table, toks):
         pos[0] += 1
         if t in table["infix"]:
             p, a = table["infix"][t]
-            rhs = expr(p if a == "L" else p - 1)
+            rhs = expr(p + 1 if a == "L" else p)
             return (t, lhs, rhs)
         if t in table["postfix"]:
             return (t, lhs)
@@ -246,7 +261,9 @@ def weak_prefix_in_right_operand(table, toks):
 # ----------------------------------------------------------------------------- implementation under test
 
 NAMES = {"x": "num", "p": "neg", "P": "lnot", "q": "fac", "Q": "qm", "i": "add", "j": "mul"}
-REV = {v: k for k, v in NAMES.items()}
+# shared names: one grammar rule used in two tables (a "-" that is negation and subtraction, a "++" that is pre- and post-increment);
+# what a token is follows from where it stands
+SHARED = {"none": {}, "prefix=infix": {"p": "minus", "i": "minus"}, "prefix=postfix": {"p": "incr", "q": "incr"}, "both": {"p": "minus", "i": "minus", "P": "incr", "q": "incr"}}
 
 
 def run_impl(table, toks):
@@ -255,24 +272,28 @@ def run_impl(table, toks):
     from pest.state import RuleFrame
 
     text = "".join(toks)
-    pairs = [Pair(text, k, k + 1, RuleFrame(NAMES[t], 0)) for k, t in enumerate(toks)]
+    names = dict(NAMES, **SHARED[table.get("shared", "none")])
+    pairs = [Pair(text, k, k + 1, RuleFrame(names[t], 0)) for k, t in enumerate(toks)]
+    revp = {names[t]: t for t in table["prefix"]}
+    revq = {names[t]: t for t in table["postfix"]}
+    revi = {names[t]: t for t in table["infix"]}
 
     class T(PrattParser):
-        PREFIX_OPS = {NAMES[t]: p for t, p in table["prefix"].items()}
-        POSTFIX_OPS = {NAMES[t]: p for t, p in table["postfix"].items()}
-        INFIX_OPS = {NAMES[n]: (p, a == "R") for n, (p, a) in table["infix"].items()}
+        PREFIX_OPS = {names[t]: p for t, p in table["prefix"].items()}
+        POSTFIX_OPS = {names[t]: p for t, p in table["postfix"].items()}
+        INFIX_OPS = {names[n]: (p, a == "R") for n, (p, a) in table["infix"].items()}
 
         def parse_primary(self, pair):
             return "x"
 
         def parse_prefix(self, op, rhs):
-            return (REV[op.name], rhs)
+            return (revp[op.name], rhs)
 
         def parse_postfix(self, lhs, op):
-            return (REV[op.name], lhs)
+            return (revq[op.name], lhs)
 
         def parse_infix(self, lhs, op, rhs):
-            return (REV[op.name], lhs, rhs)
+            return (revi[op.name], lhs, rhs)
 
     stream = Pairs(pairs).stream()
     tree = T().parse_expr(stream)
@@ -364,8 +385,9 @@ def run(tier: str) -> int:
         "traces_validated_against_impl": agg["evaluations"],
         "evaluations": agg["evaluations"],
         "distinct_nontrivial": agg["nontrivial"],
-        "rule": "every operator table of three families - A: 0-2 infix operators (precedence 1-3 with repetition, left/right), an optional prefix and an optional postfix operator (precedence 1-3); "
-                "B: 0-2 prefix, 0-2 postfix and 0-2 infix operators with all precedences distinct (every bijection onto 1..k, every associativity); C: two prefix and/or two postfix operators with precedences 1-3 with repetition and 0-1 infix - x every well-formed stream "
+        "rule": "every operator table of three families - A: 0-2 infix operators (precedence 0-2 with repetition, left/right), an optional prefix and an optional postfix operator (precedence 0-2); "
+                "B: 0-2 prefix, 0-2 postfix and 0-2 infix operators with all precedences distinct (every bijection onto 0..k-1, every associativity); C: two prefix and/or two postfix operators with precedences 0-2 with repetition and 0-1 infix; "
+                "D: the tables of A-C with at most four operators again, with one grammar rule name shared between the prefix and the infix table, the prefix and the postfix table, or both - x every well-formed stream "
                 "(prefix* primary postfix*)(infix prefix* primary postfix*)* of at most N tokens built from hand-made Pair objects; the tree built by a PrattParser subclass with tuple-building hooks is compared with "
                 "(1) an independent transcription of pest's nud/led/lbp binding-power algorithm and the whole stream must be consumed; (2) where all precedences are distinct and no weak prefix follows a stronger infix, "
                 "the unique tree satisfying the statement's local constraints (found by brute force over all trees) - oracle (1) and (2) are also compared with each other (self-check). non-trivial = streams of >= 3 tokens",
